@@ -19,7 +19,7 @@ TIERS = {
     'thorough': {'workers': 16, 'cases': 40, 'timeout': 3400, 'random_runs': 120, 'pct_runs': 60, 'preempt_samples': 0,
                  'free_runs': 30, 'all_preemptions': True},
 }
-REQUIRED_BUCKETS = ['operative:body-consults-gin-under-dynamic-registration', 'kind:operative', 'kind:singleton', 'kind:sequential', 'kind:clear-across-threads', 'policy:random', 'policy:pct', 'policy:preempt',
+REQUIRED_BUCKETS = ['operative:body-consults-gin-under-dynamic-registration', 'kind:constructor-waits-for-other-singleton', 'kind:operative', 'kind:singleton', 'kind:sequential', 'kind:clear-across-threads', 'policy:random', 'policy:pct', 'policy:preempt',
                     'mode:free-running', 'window:gin_wrapper', 'window:_config_str', 'window:singleton_value',
                     'singleton:same-name-race', 'singleton:nested-ctor', 'singleton:raising-ctor', 'singleton:different-names',
                     'operative:shared-scope', 'operative:new-keys-during-read', 'reads-checked', 'lock-contended']
@@ -89,6 +89,11 @@ def setup(ctx):
     return x
 
   _S['use'] = use
+  _S['ctor_w_body'] = [None]
+
+  @gin.configurable('c18ctorW', module='c18')
+  def ctor_w():
+    return _S['ctor_w_body'][0]()
 
   # a configurable whose body consults Gin itself (ordinary user code: logging a hyperparameter of another configurable)
   from vf import pkgtree
@@ -181,6 +186,8 @@ def iter_cases(ctx, rng, n):
       c = gen_operative(rng)
     elif k in (2, 3):
       c = gen_singleton(rng)
+    elif i % 20 == 4:
+      c = {'kind': 'ctor-waits', 'other': rng.choice(['ua', 'ub', 'uc'])}
     elif i % 10 == 9:
       c = {'kind': 'clear-across-threads', 'names': rng.sample(['ua', 'ub', 'uc', 'ua2'], rng.choice([1, 2])), 'workers': rng.choice([1, 2, 3])}
     else:
@@ -536,7 +543,58 @@ def run_clear_across_threads(ctx, case):
   ctx.fp('clear-threads', tuple(case['names']), nw)
 
 
+def run_ctor_waits(ctx, case):
+  """The constructor of one singleton waits for another thread that uses a different singleton for the first time (a loader prefetching in
+  a helper thread): that first use must not have to wait for the constructor that is waiting for it."""
+  import time
+  import gin
+  ctx.bucket('kind:constructor-waits-for-other-singleton')
+  fresh_config(case)
+  gin.parse_config('sw/gin.singleton.constructor = @c18ctorW\nuw/c18use.x = @sw/gin.singleton()\n')
+  use = _S['use']
+  st = {'done': threading.Event(), 'in_time': None, 'error': None, 't_ctor_end': None, 't_helper_end': None}
+
+  def helper():
+    try:
+      with gin.config_scope(case['other']):
+        use()
+    except BaseException as e:  # pylint: disable=broad-except
+      st['error'] = e
+    st['t_helper_end'] = time.monotonic()
+    st['done'].set()
+
+  def ctor_body():
+    t = threading.Thread(target=helper, daemon=True)
+    t.start()
+    st['in_time'] = st['done'].wait(15)
+    st['t_ctor_end'] = time.monotonic()
+    st['thread'] = t
+    return Obj(('W', 1))
+  _S['ctor_w_body'][0] = ctor_body
+  with gin.config_scope('uw'):
+    got = use()
+  st['thread'].join(30)
+  ctx.check(st['error'] is None, 'thread-exception:' + type(st['error']).__name__, 'helper thread using singleton %s failed: %r' % (case['other'], st['error']))
+  if st['in_time']:
+    ctx.count('oracle_evals')
+  elif st['t_helper_end'] is not None and st['t_helper_end'] - st['t_ctor_end'] < 2.0:
+    # the helper could not make its first use while the constructor was running, and finished right after it returned: it was waiting for it
+    ctx.check(False, 'singleton-first-use-waits-for-unrelated-constructor', "the first use of singleton %s in a helper thread was blocked until the constructor of "
+              "singleton 'sw' (which was waiting for that helper) had returned" % case['other'])
+  else:
+    raise core.Inconclusive('helper thread neither finished in time nor right after the constructor')
+  ctx.fp('ctor-waits', case['other'])
+
+
 def run_case(ctx, case):
+  if case['kind'] == 'ctor-waits':
+    from gin import config as gc
+    sched.Scheduler.restore_locks(_S['undo'])
+    try:
+      run_ctor_waits(ctx, case)
+    finally:
+      _S['undo'] = _S['sched'].swap_locks(gc)
+    return
   if case['kind'] == 'clear-across-threads':
     from gin import config as gc
     sched.Scheduler.restore_locks(_S['undo'])   # free-running threads: the real locks
